@@ -355,6 +355,10 @@ func runReq(e *ReqEdge, pkg *reg.Pkg, x *conc.Ctx, mode string, res *rep.Result)
 		return
 	}
 	exp = conc.Restrict(exp, x.V)
+	// a second tree whose leaves share their storage with root's (abs.StorageTwin): whatever the
+	// request does to root, it must replace leaf storage, never write through it
+	tw := abs.StorageTwin(root)
+	twPre := conc.Restrict(abs.Project(tw, pkg), x.V)
 	var callErr error
 	var pan string
 	desc := ""
@@ -515,6 +519,11 @@ func runReq(e *ReqEdge, pkg *reg.Pkg, x *conc.Ctx, mode string, res *rep.Result)
 	}
 	if pan != "" {
 		res.Violate("C20", reqSig("C20", "panic", e, pkg, x, mode), "panic: "+firstLine(pan)+" on "+desc, rc)
+		return
+	}
+	if d := abs.Diff(conc.Restrict(abs.Project(tw, pkg), x.V), twPre, false); len(d) > 0 {
+		res.Violate(prop, reqSig(prop, "frame-shared-storage", e, pkg, x, mode),
+			"the call wrote through existing leaf storage: the leaves of a tree sharing that storage changed: "+strings.Join(d, "; ")+" on "+desc, rc)
 		return
 	}
 	if mode == "setreq-besteffort" {
